@@ -3,6 +3,10 @@ CONSTANTS
   HasPre = TRUE
   MaxSlot = 3
   MaxSig = 4
+  Cap = 2
+  Vals <- AllVals
+  Quorums <- AllQuorums
+  PrevDec = "code"
   Weaken <- NoWeaken
 INVARIANT TypeOK
 INVARIANT SigWindow
